@@ -369,7 +369,16 @@ def membership(index: RepoIndex, rep, rule: str) -> None:
     p = f.node.args.args[1].arg
     bad = None
     from ..inline import pure_body_expr
+    from ..normalise import duck_pair_versions
     body_e = pure_body_expr(f.node)
+    pair_e = None
+    if body_e is None:
+        # `try: y, x = position.y, position.x / except AttributeError: y, x = position`: the
+        # Position reading is judged here, the pair reading below
+        vers = duck_pair_versions(f.node)
+        if vers is not None:
+            body_e = pure_body_expr(vers[0])
+            pair_e = pure_body_expr(vers[1])
     if body_e is not None:
         for y, x in itertools.product(range(-2, 6), repeat=2):
             env = {'self.ymin': 0, 'self.ymax': 2, 'self.xmin': 1, 'self.xmax': 3,
@@ -387,6 +396,23 @@ def membership(index: RepoIndex, rep, rule: str) -> None:
               src(body_e), 'Area.contains is not the two-sided test on both coordinates: '
               + (f'area ys=(0,2) xs=(1,3), position {bad[:2]} -> {bad[2]}' if bad else ''),
               'Area.contains two-sided')
+    if pair_e is not None:
+        badp = None
+        for y, x in itertools.product(range(-2, 6), repeat=2):
+            env = {'self.ymin': 0, 'self.ymax': 2, 'self.xmin': 1, 'self.xmax': 3,
+                   f'{p}[0]': y, f'{p}[1]': x, p: (y, x), 'self.ys[0]': 0, 'self.ys[1]': 2,
+                   'self.xs[0]': 1, 'self.xs[1]': 3}
+            try:
+                got = bool(int_ev(pair_e, env))
+            except (CannotEval, TypeError) as e:
+                raise AnalysisError(f'Area.contains (pair reading) outside the grammar: {e}')
+            if got != (0 <= y <= 2 and 1 <= x <= 3) and badp is None:
+                badp = (y, x, got)
+        rep.check(badp is None, rule, 'gym_gridverse/geometry.py', 'Area.contains',
+                  f.node.lineno, src(pair_e), 'Area.contains on a (y, x) pair is not the '
+                  'two-sided test on both coordinates: '
+                  + (f'area ys=(0,2) xs=(1,3), pair {badp[:2]} -> {badp[2]}' if badp else ''),
+                  'Area.contains two-sided on pairs')
     # Grid.area spans exactly the grid
     from ..affine import Aff, NonAffine, aff_of, dict_env
     from ..inline import inline_methods_by_name
